@@ -351,6 +351,15 @@ theorem c10_generated_equals_trans (env : Env) (f : Nat) (ty : Ty) (a b c : Valu
     valueEq env f ty a c = true :=
   eqTrans env f ty a b c ha hb hc h₁ h₂
 
+/-- the use callers make of it: different `ComputeHash` results prove the values are not Equal -/
+theorem c10_generated_hash_differs_implies_not_equal (env : Env) (P : Params) (f : Nat) (n : TName)
+    (a b : Value) (ha : MapsOK a) (hb : MapsOK b)
+    (h : computeHash env P f n a ≠ computeHash env P f n b) :
+    valueEq env (f + 1) (.ref n) a b = false := by
+  cases he : valueEq env (f + 1) (.ref n) a b with
+  | false => rfl
+  | true => exact absurd (c10_generated_equal_implies_same_ComputeHash env P f n a b ha hb he) h
+
 /-- generated `Equals` is a partial equivalence: whatever is Equal to something is Equal to itself.
 Plain reflexivity is false — a NaN field is not `==` itself in Go (`example` below) — and this is
 the part of it that holds for every schema and value. -/
